@@ -194,19 +194,77 @@ def sibling_features(flows, root_path, body, blocks=None, _depth=0):
             continue  # a direct call of a closure: its body is covered below, like a closure handed to an adaptor
         args = tuple(value_descriptor(flows, root_path, body.path, a) for a in t.args)
         ctrl = control_descriptor(flows, root_path, body.path, blk.i, within=blocks)
-        feats.add((short(tp), args, ctrl))
+        forms = tuple(bool_form(flows.of(body), a) for a in t.args)
+        feats.add((short(tp), args, ctrl, forms))
     if _depth < 4:
         for cb in closures_used_in(flows, body, blocks):
             feats |= sibling_features(flows, root_path, cb, None, _depth + 1)
     return feats
 
 
+def bool_form(fl, op):
+    """for a boolean argument: its POLARITY-normalised shape (`is_some(_)`, `!is_some(_)`, `_`, `!_`, `true`), with named
+    boolean locals replaced by their definition and every other variable opaque.  Two sibling call sites that hand
+    the same provenance to a flag parameter must also agree on whether it arrives negated."""
+    import panic
+
+    ty = op.place.ty if op.place is not None else (op.c or {}).get("ty")
+    if ty != "bool":
+        return ""
+
+    def expand(d, depth=0):
+        if not isinstance(d, tuple) or depth > 6:
+            return d
+        if d[0] == "place" and "." not in d[1]:
+            ls = fl.b.locals_named(d[1])
+            if ls and fl.b.local_ty(ls[0]) == "bool":
+                v = value_of_named(fl, d[1])
+                if v is not None:
+                    return expand(panic.norm(v), depth + 1)
+            return d
+        if d[0] == "call":
+            return ("call", d[1], tuple(expand(x, depth + 1) for x in d[2]))
+        if d[0] == "unop":
+            return ("unop", d[1], expand(d[2], depth + 1))
+        if d[0] == "binop":
+            return ("binop", d[1], expand(d[2], depth + 1), expand(d[3], depth + 1))
+        return d
+
+    d = expand(panic.norm(fl.describe(op, depth=8)))
+    neg = False
+    for _ in range(8):
+        if not isinstance(d, tuple):
+            break
+        if d[0] == "unop" and d[1] == "Not":
+            neg = not neg
+            d = d[2]
+            continue
+        if d[0] == "call" and d[1].split("::")[-1] in ("is_none", "is_err", "is_empty") and d[2]:
+            flip = {"is_none": "is_some", "is_err": "is_ok", "is_empty": "is_nonempty"}[d[1].split("::")[-1]]
+            neg = not neg
+            d = ("call", flip, d[2])
+            continue
+        if d[0] == "call" and d[1].split("::")[-1] in ("is_some", "is_ok") and d[2]:
+            d = ("call", d[1].split("::")[-1], d[2])
+        break
+    if isinstance(d, tuple) and d[0] == "const":
+        return d[1].replace("const ", "")
+    core = panic.shape_str(d) if isinstance(d, tuple) else str(d)
+    if isinstance(d, tuple) and d[0] == "call":
+        core = "%s(%s)" % (d[1].split("::")[-1], ", ".join("_" for _ in d[2]))
+    elif isinstance(d, tuple) and d[0] in ("place", "tmp"):
+        core = "_"
+    return ("!" if neg else "") + core
+
+
 def fmt_feature(f):
-    callee, args, ctrl = f
-    def d(x):
+    callee, args, ctrl = f[:3]
+    forms = f[3] if len(f) > 3 else ()
+    def d(i, x):
         p, c = x
-        return "{%s%s}" % (",".join(sorted(p)), (" via " + ",".join(sorted(s.split("::")[-1] for s in c))) if c else "")
-    return "%s(%s)%s" % (callee.split("::")[-1], ", ".join(d(a) for a in args), (" under " + ",".join(sorted(ctrl))) if ctrl else "")
+        fm = forms[i] if i < len(forms) else ""
+        return "{%s%s}%s" % (",".join(sorted(p)), (" via " + ",".join(sorted(s.split("::")[-1] for s in c))) if c else "", (" as " + fm) if fm else "")
+    return "%s(%s)%s" % (callee.split("::")[-1], ", ".join(d(i, a) for i, a in enumerate(args)), (" under " + ",".join(sorted(ctrl))) if ctrl else "")
 
 
 # ------------------------------------------------------------------ error kinds
@@ -482,3 +540,83 @@ def canon_exists(fl, test, val, sw=None):
             if len(rest) == 1:
                 return (r[0], r[1], rest.pop() == 1)
     return None
+
+
+# ------------------------------------------------------------------ unwrapped crate calls and the ways they can fail
+
+
+def callee_error_kinds(prog, path, _seen=None, _depth=0):
+    """ErrorKind variants constructed in a crate function, its closures and the Result-returning crate functions
+    it calls (an over-approximation of the kinds it can return)"""
+    seen = _seen if _seen is not None else set()
+    if path in seen or _depth > 6:
+        return set()
+    seen.add(path)
+    b = prog.bodies[path]
+    out = set()
+    for body in [b] + list(prog.closures_of(path)):
+        out |= {v for (_, _, v) in errorkind_sites(body)}
+        for t in body.calls():
+            tp = t.callee.target_path(prog) if t.callee else None
+            if tp and prog.items[tp]["kind"] != "closure":
+                rt = prog.bodies[tp].local_ty(0)
+                if rt.startswith("std::result::Result<") and "error::Error" in rt:
+                    out |= callee_error_kinds(prog, tp, seen, _depth + 1)
+    return out
+
+
+def unwrapped_crate_results(prog, flows):
+    """[(root function short name, callee short name, kinds, site)] for every unwrap/expect whose operand is the
+    Result<_, Error> of a crate function"""
+    import panic
+
+    out = []
+    for p in sorted(prog.bodies):
+        b = prog.bodies[p]
+        fl = flows.of(b)
+        for s in panic.enumerate_sites(b):
+            if s.kind != "unwrap" or s.operand is None:
+                continue
+            oc = panic.origin_call(fl, s.operand)
+            if oc is None or not oc.callee:
+                continue
+            tp = oc.callee.target_path(prog)
+            if not tp or prog.items[tp]["kind"] == "closure":
+                continue
+            rt = prog.bodies[tp].local_ty(0)
+            if not (rt.startswith("std::result::Result<") and "error::Error" in rt):
+                continue
+            out.append((panic.root_fn_short(b), short(tp), sorted(callee_error_kinds(prog, tp)), s))
+    return out
+
+
+def check_unwrapped_callee_kinds(ctx, prog, flows, rid, prefixes, consequence):
+    """An `.unwrap()` on the Result of a crate function was reviewed against the error kinds that function could
+    produce (rules/unwrap_callee_kinds.json, one line per caller/callee pair).  If the callee (or something it calls)
+    gains a NEW error kind, every such unwrap is a new way to panic until it is looked at again."""
+    import json
+    import os
+
+    ctx.rule(rid, "a crate call whose Result is unwrapped has gained no error kind since that unwrap was reviewed")
+    path = os.path.join(os.path.dirname(os.path.abspath(__file__)), "..", "rules", "unwrap_callee_kinds.json")
+    try:
+        table = {e["key"]: e for e in json.load(open(path))["entries"]}
+    except (OSError, ValueError, KeyError):
+        ctx.anchor_lost(rid, "rules/unwrap_callee_kinds.json")
+        return 0
+    n = 0
+    new_keys = []
+    for (root, callee, kinds, s) in unwrapped_crate_results(prog, flows):
+        if prefixes is not None and not any(root.startswith(x) for x in prefixes):
+            continue
+        key = "%s|%s" % (root, callee)
+        e = table.get(key)
+        if e is None:
+            new_keys.append(key)
+            continue
+        n += 1
+        extra = sorted(set(kinds) - set(e["kinds"]))
+        ctx.require(not extra, rid, key, "%s unwraps %s, which can fail with %s as when it was reviewed" % (root.split("::")[-1], callee.split("::")[-1], kinds),
+                    "%s unwraps the result of %s, which can now also fail with %s (reviewed for %s only): " % (root, callee, extra, e["kinds"]) + consequence, s.site())
+    ctx.counters["unwrapped_crate_calls_not_in_table"] = sorted(set(new_keys))
+    return n
